@@ -219,3 +219,104 @@ func init() {
 			return retScenario(retPopulations(tier)[i], b)
 		}})
 }
+
+// ---------------------------------------------------------------------------------------------
+// C14, clause "never deletes the file currently being written", with histories and faults: the
+// appender has been quiet for longer than maxAge (its live file is older than the cut-off), the clock
+// then crosses boundaries, file creations may fail (F <= 2) at any of them, and the cleanup goroutine
+// races the following writes. Whatever happens, the file the appender is writing to stays in the
+// directory and every written line is readable from a file that is still linked there.
+// ---------------------------------------------------------------------------------------------
+
+func liveFileScenario(maxAge int32, quietHours int, b zzvrt.Bounds) *zzvrt.Scenario {
+	desc := fmt.Sprintf("maxAge=%dh quiet=%dh", maxAge, quietHours)
+	var errS string
+	var ids []string
+	return &zzvrt.Scenario{
+		Desc:   desc,
+		Before: func() { resetAll(); errS = ""; ids = nil },
+		Opts:   zzvrt.RunOpts{Bounds: b, Start: retStart, TickStep: time.Hour},
+		Body: func() {
+			x := zzvrt.Cur()
+			x.FS.FaultOps = map[string]bool{"open": true}
+			a := &log.RollingFileAppender{FileDir: rollDir, FileName: "app.log", Rotation: log.TimeRotation{Interval: time.Hour}, MaxAge: maxAge}
+			zzvrt.Atomic(func() {
+				x.FS.MkdirAll(rollDir)
+				if err := a.Start(); err != nil {
+					errS = err.Error()
+				}
+			})
+			if errS != "" {
+				return
+			}
+			a.Write([]byte("l0\n"))
+			ids = append(ids, "l0")
+			// the appender stays quiet (every goroutine it started has finished); the clock moves on
+			zzvrt.WaitQuiescent()
+			x.Now = x.Now.Add(time.Duration(quietHours) * time.Hour)
+			for i := 1; i <= 3; i++ {
+				id := fmt.Sprintf("l%d", i)
+				a.Write([]byte(id + "\n"))
+				ids = append(ids, id)
+			}
+			zzvrt.WaitQuiescent()
+			// do not Stop: look at the directory as it is while the appender is live
+		},
+		Check: func(x *zzvrt.Exec) (string, []zzvrt.Violation) {
+			key := desc
+			if x.Outcome != "" {
+				return x.Outcome, []zzvrt.Violation{{Clause: "no-" + strings.SplitN(x.Outcome, ":", 2)[0], Key: key, Detail: x.Outcome}}
+			}
+			if errS != "" {
+				return errS, nil // Start itself failed by an injected fault
+			}
+			var v []zzvrt.Violation
+			// the file currently being written (the descriptor opened last) must be linked in the directory;
+			// the previous file, kept open only for its deferred close, may expire
+			var cur *zzvrt.File
+			for fl := range x.FS.Open {
+				if cur == nil || fl.ID > cur.ID {
+					cur = fl
+				}
+			}
+			if cur != nil {
+				if _, ok := x.FS.Nodes[cur.Path]; !ok {
+					v = append(v, zzvrt.Violation{Clause: "live-file-deleted", Key: key, Detail: fmt.Sprintf("%s is the file currently being written but was removed from the directory", cur.Path)})
+				}
+			}
+			var all strings.Builder
+			names := x.FS.List(rollDir)
+			for _, n := range names {
+				all.Write(x.FS.Nodes[rollDir+"/"+n].Data)
+			}
+			// l0 sits in the first file, which may legitimately expire once it is no longer written to; the
+			// later lines are younger than any max age
+			for _, id := range ids[1:] {
+				if !strings.Contains(all.String(), id+"\n") {
+					v = append(v, zzvrt.Violation{Clause: "written-line-unreachable", Key: key, Detail: fmt.Sprintf("line %s is in no file of the directory (files %v)", id, names)})
+				}
+			}
+			return fmt.Sprint(names), v
+		},
+	}
+}
+
+func init() {
+	type lf struct {
+		maxAge int32
+		quiet  int
+	}
+	cases := []lf{{1, 3}, {1, 1}, {24, 30}, {24, 2}, {168, 200}, {720, 800}}
+	registerFamily(Fam{Prop: "C14", Name: "c14/live-file-with-failed-creations", Tiers: "qt",
+		Count: func(string) int { return len(cases) },
+		Make: func(tier string, i int) *zzvrt.Scenario {
+			b := zzvrt.Bounds{Preempt: 1, Horizon: 5000}
+			b.Env[zzvrt.SeamFault] = 2
+			b.Env[zzvrt.SeamTick] = 1
+			if tier == "thorough" {
+				b.Preempt = 2
+				b.Env[zzvrt.SeamTick] = 2
+			}
+			return liveFileScenario(cases[i].maxAge, cases[i].quiet, b)
+		}})
+}
